@@ -69,6 +69,7 @@ type Conn struct {
 	reqCtx      context.Context
 	finished    chan struct{}
 	writeLimit  int // >0: the peer does not read; server writes block once this many bytes are buffered
+	writeDL     time.Time // write deadline set through http.ResponseController (zero = none)
 
 	// observations
 	Outcome       string // network-level outcome ("", refuse, reset, ...)
@@ -567,6 +568,24 @@ func (w *respWriter) leave() { atomic.AddInt32(&w.inCall, -1) }
 
 func (w *respWriter) Header() http.Header { return w.hdr }
 
+// SetWriteDeadline is what http.ResponseController finds: a write blocked by a peer that does not
+// read fails once the deadline has passed (as net.Conn.SetWriteDeadline does for a real server).
+func (w *respWriter) SetWriteDeadline(t time.Time) error {
+	c := w.c
+	c.mu.Lock()
+	c.writeDL = t
+	c.broadcast()
+	c.mu.Unlock()
+	if d := time.Until(t); !t.IsZero() && d > 0 {
+		time.AfterFunc(d, func() {
+			c.mu.Lock()
+			c.broadcast()
+			c.mu.Unlock()
+		})
+	}
+	return nil
+}
+
 func (w *respWriter) WriteHeader(code int) {
 	c := w.c
 	c.mu.Lock()
@@ -608,6 +627,11 @@ func (w *respWriter) Write(p []byte) (int, error) {
 		if c.writeLimit == 0 || len(c.buf) < c.writeLimit || c.clientGone || s.dead.Load() {
 			c.mu.Unlock()
 			break
+		}
+		if !c.writeDL.IsZero() && !time.Now().Before(c.writeDL) {
+			c.mu.Unlock()
+			s.Fault("net.write_deadline")
+			return 0, &net.OpError{Op: "write", Net: "tcp", Addr: addrOf(c.Host), Err: os.ErrDeadlineExceeded}
 		}
 		ch := c.notify
 		c.mu.Unlock()
